@@ -76,10 +76,18 @@ def explore(ctx, rep, cases, label):
             rep.fail("harness consistency: " + e, c, observed=e)
         rep.count("concurrent:%d" % len(ex))
         rep.count("late sub-context traversal" if nt else "no late traversal")
+        rep.count("user entry registered" if c.get("user_ctx") is not None else "no user entry")
+        if c.get("overrides"):
+            for t in sorted({m["task"] for m in c["msgs"]}):
+                rep.count("overrides: un-cached sub-graphs prepared=%s resolved=%s%s" % (
+                    L.has_uncached(c, t, False), L.has_uncached(c, t, True), ", late traversal" if nt else ""))
+        else:
+            rep.count("overrides: none")
         for d in ex:
             for what, observed, expected, sig in L.oracle_c06(c, d, ex):
                 rep.fail(what, c, observed=observed, expected=expected, sig=sig)
             rep.count("contexts per execution:%d" % min(len(d.ctxs), 6))
+            rep.count("user entry reads", len(d.user_reads))
             for g, cn, echo, what in d.reads:
                 rep.count("read:%s:%s" % ("task" if what == "task" else "dependency", "top" if cn == 0 else "sub"))
             rep.count("saved" if d.saves else "not saved")
